@@ -183,7 +183,7 @@ class C03(Check):
     pid = 'C03'
     level = 'model_checking'
     rule = ('8 statutory rule names on U(3,<=4) x seats x two tie orders, U(3,5), weighted W(3,3,3,{2,3,5}) x seats {1,2}, 4-candidate W(4,2,3,{1,2,3}) x seats {1,2,3}, bullet piles BU(4), bullets+pairs BP(4,3) (multi-stage ties), '
-            'withdrawn subsets, mpls additionally x undeclared subsets (thorough: U(3,6..7), W(3,3,3,{1,2,3,5,8}), W(4,2,4,{1,2,3}), W(4,4,3,{1,2,3}), W(5,2,3,{1,2,4}), all 6 tie orders); '
+            'withdrawn subsets, mpls additionally x undeclared subsets, the test ballot files shipped with the repository (5-25 candidates; thorough: all 21 Glasgow wards) (thorough: U(3,6..7), W(3,3,3,{1,2,3,5,8}), W(4,2,4,{1,2,3}), W(4,4,3,{1,2,3}), W(5,2,3,{1,2,4}), all 6 tie orders); '
             'states = distinct model stage-states (rule, statuses implied by events so far, tallies), transitions = distinct consecutive stage-state pairs, '
             'traces_validated = (profile, rule) pairs whose complete model trace equals the projected implementation trace; non-trivial = pairs whose trace has a transfer or exclusion stage')
     assumptions = ['bounded election sizes', 'interpretive choices of each model are listed in its docstring (droop\'s documented readings are adopted, not independently verified)',
@@ -202,6 +202,7 @@ class C03(Check):
         yield from families.seats_ties(4, spaces.BP(4, 3), seats=(1, 2), ties='id', cfgs=[{'rule': 'scotland'}, {'rule': 'cfer-batch'}, {'rule': 'wigm-prf-batch'}, {'rule': 'mpls'}])
         yield from families.seats_ties(3, spaces.W(3, 3, 3, (2, 3, 5)), seats=(1, 2), ties='id', cfgs=S)
         yield from families.seats_ties(3, spaces.U(3, 5, 5), ties='id', cfgs=S)
+        yield from families.repo_files(S, max_bytes=4000 if q else 10 ** 7)
         if not q:
             yield from families.seats_ties(3, spaces.U(3, 0, 4), ties='all', cfgs=S)
             yield from families.seats_ties(3, spaces.W(3, 3, 3, (1, 2, 3, 5, 8)), seats=(1, 2), cfgs=S)
@@ -215,11 +216,23 @@ class C03(Check):
 
     def check(self, case, acc):
         n, seats = case['n'], case['s']
-        ballots = [(m, tuple(r)) for m, r in case['b']]
-        tie = list(case.get('tie') or range(1, n + 1))
-        wd = tuple(case.get('wd') or ())
-        ud = tuple(case.get('ud') or ())
         text = ecase.text(case)
+        if case.get('file'):
+            # a ballot file of the repository's own tests: the model gets the ballots as the (separately checked, C15) parser read them
+            from ..repo import ElectionProfile
+            prof = ElectionProfile(data=text)
+            if prof.ballotLinesEqual:
+                return
+            ballots = [(bl.multiplier, tuple(bl.ranking)) for bl in prof.ballotLines]
+            tie = sorted(prof.tieOrder, key=prof.tieOrder.get)
+            wd = ()      # already removed from the rankings by the parser; the model is told about them through n only
+            wd = tuple(sorted(prof.withdrawn))
+            ud = tuple(sorted(prof.undeclared))
+        else:
+            ballots = [(m, tuple(r)) for m, r in case['b']]
+            tie = list(case.get('tie') or range(1, n + 1))
+            wd = tuple(case.get('wd') or ())
+            ud = tuple(case.get('ud') or ())
         for cfg in case['cfgs']:
             rule = cfg['rule']
             one = common.one_cfg(case, cfg)
